@@ -120,6 +120,11 @@ class C19(Check):
             for n in ([45] if tier == 'quick' else [31, 32, 33, 45, 80, 200]):
                 for nanv in (0, 1):
                     js.append(dict(kind='sum', cfg=c, k=n, long=True, nan=[nanv if i == n - 8 else (1 if i % 9 == 4 else 0) for i in range(n)]))
+        # leftover-state probe: the same collection summarised first on another grid in the same process
+        for c, first in (('unit', 'partial'), ('partial', 'unit')):
+            for pat in range(2):
+                js.append(dict(kind='sum', cfg=c, k=1, nan=[pat], first=first))
+            js.append(dict(kind='sum', cfg=c, k=45, long=True, nan=[1 if i % 9 == 4 else 0 for i in range(45)], first=first))
         js.sort(key=lambda j: -j['k'] if not j.get('long') else -10 ** 6 + j['k'])      # scale probes first (smallest first), then the small-bound jobs, largest first
         return js
 
@@ -166,6 +171,9 @@ class C19(Check):
         pts, vals = self._inputs(eng, None, job)
         coll, allpts, allvals = build(job['cfg'], pts, vals)
         try:
+            if job.get('first'):
+                r0 = summarize(job['first'], coll)
+                [r0.getCell(ENUCoords(x, y, 0)) for x, y in allpts]
             ras = summarize(job['cfg'], coll)
             cells = [ras.getCell(ENUCoords(x, y, 0)) for x, y in allpts]
         except (core._Abort, core._Stop, core.Unsupported):
@@ -239,6 +247,9 @@ class C19(Check):
         coll, allpts, allvals = build(job['cfg'], pts, vals)
         desc = 'grid %s, observations %r with values %r' % (job['cfg'], allpts, allvals)
         try:
+            if job.get('first'):
+                r0 = summarize(job['first'], coll)
+                [r0.getCell(ENUCoords(x, y, 0)) for x, y in allpts]
             ras = summarize(job['cfg'], coll)
             cells = [ras.getCell(ENUCoords(x, y, 0)) for x, y in allpts]
         except (Exception, SystemExit) as e:
